@@ -566,6 +566,96 @@ def gen_table(rng, tier):
     return chunk("tbl", ops, 200)
 
 
+# ------------------------------------------------------------------ distribution descriptions (round 2)
+def dh(x):
+    return struct.pack(">d", float(x)).hex()
+
+
+def short_dec(rng, lo, hi, digits):
+    """a double that is the nearest to a decimal with at most `digits` decimals: the fixed-notation
+    text written with >= digits decimals is that decimal, and it parses back to the same double"""
+    k = 10 ** digits
+    return rng.randint(int(lo * k), int(hi * k)) / k
+
+
+def dyadic_probs(rng, k):
+    """k positive probabilities that are multiples of 1/64 and sum to exactly 1"""
+    cuts = sorted(rng.sample(range(1, 64), k - 1)) if k > 1 else []
+    parts = [b - a for a, b in zip([0] + cuts, cuts + [64])]
+    return [p / 64.0 for p in parts]
+
+
+def gen_dist_tree(rng, depth, digits, exact=True, pos=False):
+    """prefix-notation tokens of a random distribution (class counts 1..8).  Parameters are kept in
+    the well-conditioned range of the discretisation (shape parameters >= 0.5) and, below an
+    Invariant node (`pos`), class values stay away from the invariant class at 1e-6: the class
+    values of ill-conditioned cases depend on the construction history (C09's subject), which is
+    not what this stream is about."""
+    def num(lo, hi):
+        return dh(short_dec(rng, lo, hi, digits) if exact else rng.uniform(lo, hi))
+    fams = ["G", "B", "E", "N", "T", "U", "C", "S", "Go"]
+    if depth > 0:
+        fams += ["I", "I", "M", "M"]
+    f = rng.choice(fams)
+    n = rng.randint(1, 8)
+    if f == "G":
+        return ["G", str(n), num(0.5, 6), num(0.5, 6)]
+    if f == "Go":
+        return ["Go", str(n), num(0.5, 6), num(0.5, 6), num(0.1, 3)]
+    if f == "B":
+        return ["B", str(n), num(0.5, 5), num(0.5, 5)]
+    if f == "E":
+        return ["E", str(n), num(0.1, 8)]
+    if f == "N":
+        return ["N", str(n), num(3, 6), num(0.1, 0.5)] if pos else ["N", str(n), num(-5, 5), num(0.1, 4)]
+    if f == "T":
+        return ["T", str(n), num(0.1, 4), num(0.5, 20)]
+    if f == "U":
+        a = short_dec(rng, 0.1 if pos else -5, 5, min(digits, 6)); b = a + short_dec(rng, 0.1, 6, min(digits, 3))
+        return ["U", str(n), dh(a), dh(round(b, 6))]
+    if f == "C":
+        return ["C", num(0.1 if pos else -3, 9)]
+    if f == "S":
+        k = rng.randint(1, 8)
+        vals = sorted(set(short_dec(rng, 0.1 if pos else -2, 9, min(digits, 3)) for _ in range(k)))
+        k = len(vals)
+        return ["S", str(k)] + [dh(v) for v in vals] + [dh(p) for p in dyadic_probs(rng, k)]
+    if f == "I":
+        return ["I", num(0.01, 0.9)] + gen_dist_tree(rng, depth - 1, digits, exact, True)
+    k = rng.randint(1, 3)
+    toks = ["M", str(k)] + [dh(p) for p in dyadic_probs(rng, k)]
+    for _ in range(k):
+        toks += gen_dist_tree(rng, depth - 1, digits, exact, True)
+    return toks
+
+
+def gen_dist(rng, tier):
+    thorough = tier == "thorough"
+    ops = []
+    # every family x class count 1..8 with fixed parameters
+    for n in range(1, 9):
+        for toks in (["G", str(n), dh(0.5), dh(1.25)], ["Go", str(n), dh(2), dh(0.5), dh(0.75)], ["B", str(n), dh(1.5), dh(2)],
+                     ["E", str(n), dh(2)], ["N", str(n), dh(1), dh(2)], ["T", str(n), dh(1), dh(5)],
+                     ["U", str(n), dh(0.5), dh(2.5)],
+                     ["S", str(n)] + [dh(i + 0.5) for i in range(n)] + [dh(p) for p in dyadic_probs(rng, n)],
+                     ["I", dh(0.125), "G", str(n), dh(0.5), dh(1)],
+                     ["M", "2", dh(0.25), dh(0.75), "G", str(n), dh(0.5), dh(1), "E", str(max(1, n - 1)), dh(2)]):
+            ops.append("dist.rt 6 " + " ".join(toks))
+    ops.append("dist.rt 6 C " + dh(1.5))
+    # random trees, parameters that are exactly representable in the text (bit-for-bit round trip expected)
+    n = 6000 if thorough else 800
+    for _ in range(n):
+        prec = rng.choice([6, 6, 6, 8, 12])
+        digits = rng.choice([1, 2, 3, min(prec, 6)])
+        ops.append("dist.rt %d %s" % (prec, " ".join(gen_dist_tree(rng, 2, digits))))
+    # arbitrary doubles: the text rounds them (12 decimals for parameters, the stream's precision for
+    # values and probabilities): class values / probabilities come back approximately
+    m = 2000 if thorough else 250
+    for _ in range(m):
+        ops.append("dist.rt %d %s" % (rng.choice([6, 9, 12]), " ".join(gen_dist_tree(rng, 1, 6, exact=False))))
+    return chunk("dist", ops, 100)
+
+
 # ------------------------------------------------------------------ entry points
 def generate(seed, tier):
     rng = random.Random(seed)
@@ -578,6 +668,7 @@ def generate(seed, tier):
     cases += gen_tok(rng2, tier)
     cases += gen_nested(rng2, tier)
     cases += gen_table(rng2, tier)
+    cases += gen_dist(rng2, tier)
     return cases
 
 
@@ -614,6 +705,8 @@ def compare(op_line, impl, model):
         return a[0] == b[0] and a[1] == b[1] and same_double(a[2], b[2]) and a[3] == b[3]
     if op == "dbl.rt":
         return impl.split()[:1] == model.split()[:1]
+    if op == "dist.rt":
+        return True                               # explored: the model has no answer of its own ("?")
     return " ".join(impl.split()) == " ".join(model.split())
 
 
